@@ -12,7 +12,7 @@ Definition o_new : bytes := (refs_heads ++ b "new")%list.
 Definition c29_state : state :=
   mkState [[(b "a", (KReg, b "A0"))]; [(b "a", (KReg, b "A1"))]]
           [(master, 0%Z); (o_other, 1%Z)] (HSym master)
-          [(b "a", (KReg, b "A0"))] [(b "a", (KReg, b "dirty"))].
+          [(b "a", (KReg, b "A0"))] [(b "a", (KReg, b "dirty"))] [].
 
 Lemma refusals_leave_state :
   checkout (mkCopts o_other (-1) false false false) c29_state = (Some EUnstaged, c29_state) /\
@@ -20,4 +20,31 @@ Lemma refusals_leave_state :
   checkout (mkCopts o_new 7 true true false) c29_state = (Some EObjectNotFound, c29_state) /\
   checkout (mkCopts o_other 1 false false false) c29_state = (Some EBranchHashExclusive, c29_state) /\
   checkout (mkCopts o_other (-1) true true false) c29_state = (Some EBranchExists, c29_state).
+Proof. vm_compute. repeat split. Qed.
+
+(* the "missing object" family: HEAD's commit gone, target that is no commit,
+   target commit without its tree, HEAD on a ref that is no branch *)
+Definition c29_clean : state :=
+  mkState [[(b "a", (KReg, b "A0"))]; [(b "a", (KReg, b "A1"))]]
+          [(master, 0%Z); (o_other, 1%Z); (b "refs/tags/t", 0%Z)] (HSym master)
+          [(b "a", (KReg, b "A0"))] [(b "a", (KReg, b "A0"))] [].
+Definition with_head (s : state) (h : headref) := set_head s h.
+Definition without_tree (s : state) (l : list Z) := mkState (commits s) (refs s) (head s) (idx s) (wt s) l.
+
+Lemma missing_object_refusals :
+  (* Create from a HEAD whose commit is missing: refused, no branch written *)
+  checkout (mkCopts o_new (-1) true false false) (with_head c29_clean (HDet 9)) = (Some EObjectNotFound, with_head c29_clean (HDet 9)) /\
+  checkout (mkCopts o_new (-1) true false true) (with_head c29_clean (HDet 9)) = (Some EObjectNotFound, with_head c29_clean (HDet 9)) /\
+  (* target names a tree / blob *)
+  checkout (mkCopts [] 100 false false false) c29_clean = (Some EOther, c29_clean) /\
+  checkout (mkCopts o_new 101 true true false) c29_clean = (Some EOther, c29_clean) /\
+  reset 100 Hard None c29_clean = (Some EObjectNotFound, c29_clean) /\
+  (* target commit exists, its tree does not *)
+  checkout (mkCopts o_other (-1) false false false) (without_tree c29_clean [1%Z]) = (Some EObjectNotFound, without_tree c29_clean [1%Z]) /\
+  checkout (mkCopts o_new 1 true true false) (without_tree c29_clean [1%Z]) = (Some EObjectNotFound, without_tree c29_clean [1%Z]) /\
+  reset 1 Mixed None (without_tree c29_clean [1%Z]) = (Some EObjectNotFound, without_tree c29_clean [1%Z]) /\
+  reset 1 Keep None (without_tree c29_clean [0%Z]) = (Some EObjectNotFound, without_tree c29_clean [0%Z]) /\
+  (* HEAD symbolic to a tag *)
+  reset 1 Hard None (with_head c29_clean (HSym (b "refs/tags/t"))) = (Some EOther, with_head c29_clean (HSym (b "refs/tags/t"))) /\
+  reset 1 Soft None (with_head c29_clean (HSym (b "refs/tags/t"))) = (Some EOther, with_head c29_clean (HSym (b "refs/tags/t"))).
 Proof. vm_compute. repeat split. Qed.
